@@ -2,7 +2,9 @@ import json
 
 import gen
 
-KEYS = ["a", "b", "id", "x y", "é", "zz", "_priv", "name"]
+# attribute names, including ones that are substrings / superstrings of the special names `children`, `name`, `parent`
+KEYS = ["a", "b", "id", "x y", "é", "zz", "_priv", "c", "n", "e", "child", "ren", "childre", "children_", "Children",
+        "nam", "names", "parent_", "k\ufeff", "name"]
 
 
 def rand_value(rng, depth=0):
@@ -10,7 +12,7 @@ def rand_value(rng, depth=0):
     if r < 0.25:
         return rng.randrange(-5, 100)
     if r < 0.4:
-        return rng.choice(["", "s", "line1\nline2", "tab\t", "quote\"q", "back\\slash", "é中", "\u0001ctl", "null"])
+        return rng.choice(["", "s", "line1\nline2", "tab\t", "quote\"q", "back\\slash", "é中", "\u0001ctl", "null", "a\ufeffb", "\ufeff", "ls\u2028ps\u2029", "\x7f\x00", "\U0001f600"])
     if r < 0.5:
         return rng.choice([None, True, False])
     if r < 0.6:
@@ -18,7 +20,7 @@ def rand_value(rng, depth=0):
     if depth < 2 and r < 0.8:
         return [rand_value(rng, depth + 1) for _ in range(rng.randrange(0, 3))]
     if depth < 2:
-        return {rng.choice(["k", "children", "m"]): rand_value(rng, depth + 1) for _ in range(rng.randrange(0, 3))}
+        return {rng.choice(["k", "children", "m", "k\ufeff", "name"]): rand_value(rng, depth + 1) for _ in range(rng.randrange(0, 3))}
     return 7
 
 
@@ -101,6 +103,9 @@ def make(rng, shape, json_layer):
     c["start"] = addr
     if rng.random() < 0.5:
         c["data"] = rand_ddata(rng, 0, cls == "node")
+    if rng.random() < 0.3:
+        # the same DictExporter object exported before, and a user hook aborted that export at its k-th node
+        c["prior"] = [rng.randrange(1, atree_size(t) + 1) for _ in range(rng.choice([1, 1, 2]))]
     if json_layer:
         custom = rng.random() < 0.5
         jmax = rng.choice([None, None, 1, 2, h + 1])
@@ -115,6 +120,8 @@ def make(rng, shape, json_layer):
             jk["separators"] = [",", ":"]
         jk["jsonmaxlevel"] = jmax
         jk["customdict"] = custom
+        if rng.random() < 0.3:
+            jk["prior_jsonmax"] = rng.choice([1, 1, 2])      # another JsonExporter exported with this maxlevel before
         c["json"] = jk
         if not custom:
             c["attriter"], c["childiter"], c["dictcls"] = "none", "list", None
